@@ -72,7 +72,7 @@ theorem sendOK_exec (v : Variant) (s : St) (t : Nat) (i : Instr) (rest : List In
   intro u
   cases i
   case closeSwap =>
-    simp only [exec]
+    simp only [exec, flushBody]
     split
     all_goals
       simp only [setProg_prog]
@@ -82,7 +82,7 @@ theorem sendOK_exec (v : Variant) (s : St) (t : Nat) (i : Instr) (rest : List In
         · first | exact h1 | (rw [sendOK_cons_notSend _ _ rfl]; exact h1)
       · exact hall u
   case delByTag tag rep caps =>
-    simp only [exec]
+    simp only [exec, flushBody]
     split
     · simp only [setProg_prog]
       split
@@ -97,7 +97,7 @@ theorem sendOK_exec (v : Variant) (s : St) (t : Nat) (i : Instr) (rest : List In
         · exact h1
       · exact hall u
   case loadDone c r =>
-    simp only [exec, setProg_prog]
+    simp only [exec, flushBody, setProg_prog]
     split
     · -- the loaded channel is the one made at registration
       have htok : 1 ≤ toks c (s.prog t) := by rw [hs, toks_cons]; simp [isTok]
@@ -109,7 +109,7 @@ theorem sendOK_exec (v : Variant) (s : St) (t : Nat) (i : Instr) (rest : List In
       exact h1
     · exact hall u
   case idleGo c =>
-    simp only [exec]
+    simp only [exec, flushBody]
     split
     · exact hall u
     · simp only [setProg_prog]
@@ -119,7 +119,7 @@ theorem sendOK_exec (v : Variant) (s : St) (t : Nat) (i : Instr) (rest : List In
         · exact h1
         · exact hall u
   case srv a =>
-    simp only [exec]
+    simp only [exec, flushBody]
     split
     · exact hall u
     · cases a <;> simp only [execSrv]
@@ -142,17 +142,17 @@ theorem sendOK_exec (v : Variant) (s : St) (t : Nat) (i : Instr) (rest : List In
       case close => simp only [setProg_prog]; split <;> first | exact h1 | exact hall u
       case rerr => simp only [setProg_prog]; split <;> first | exact h1 | exact hall u
   case cancelConts c r =>
-    simp only [exec, setProg_prog]
+    simp only [exec, flushBody, setProg_prog]
     split
     · exact h1
     · rw [updCmd_prog, foldl_setCont2_prog]; exact hall u
   case cancelOrphans ks =>
-    simp only [exec, setProg_prog]
+    simp only [exec, flushBody, setProg_prog]
     split
     · exact h1
     · rw [foldl_setCont_prog]; exact hall u
   all_goals
-    simp only [exec]
+    simp only [exec, flushBody]
     repeat' split
     all_goals
       first
@@ -207,30 +207,30 @@ theorem exec_riView (v : Variant) (hv : v.initFirst = true) (s : St) (t : Nat) (
   cases i
   case register c =>
     by_cases hg : (!s.holds t || (s.cmd c).registered) = true
-    · left; simp only [exec, hg, if_true]
+    · left; simp only [exec, flushBody, hg, if_true]
     · right
       refine ⟨c, ?_⟩
-      simp only [exec, hg, hv]
+      simp only [exec, flushBody, hg, hv]
       unfold riView
       simp only [Bool.false_eq_true, if_false, setProg_cmd, updCmd_cmd]
       funext d
       by_cases hd : d = c <;> simp [hd]
   case srv a =>
-    left; simp only [exec]; split
+    left; simp only [exec, flushBody]; split
     · rfl
     · exact execSrv_riView s t rest a
   case postReg c =>
-    left; simp only [exec, hv, if_true]; split <;> rfl
+    left; simp only [exec, flushBody, hv, if_true]; split <;> rfl
   case cancelConts c r =>
     left
-    simp only [exec]
+    simp only [exec, flushBody]
     unfold riView
     simp only [setProg_cmd, updCmd_cmd, foldl_setCont2_cmd]
     funext d
     split <;> rfl
   all_goals
     left
-    simp only [exec]
+    simp only [exec, flushBody]
     repeat' split
     all_goals
       first
